@@ -17,6 +17,6 @@ vplib.write_table(tab, st, ed, ini, checks.core_canon(mods, maxpay, int(env.get(
 e = {"VP_MODS": ",".join(mods), "VP_MAXPAY": str(maxpay), "GW_REPLAY": rp}
 e.update(env)
 rc, out, _ = vplib.sh([exe, tab, "/tmp", "replay", "0", "0", "0", "0", "1"], env=e, timeout=120)
-print(out[-6000:])
+print(out[-int(os.environ.get("VP_RP_TAIL", "6000")):])
 vplib.cleanup(d)
 PY
